@@ -214,6 +214,45 @@ def ReaderHdr.believed {H : Type} (r : ReaderHdr H) : Prefix H := if r.cached th
 /-- `_decode_blocks`: `salt = list(blocks_and_salts.items())[0][1][1]` -- the first active reader's (SDMF: its header's IV) -/
 def decryptSalt {H : Type} (readers : List (ReaderHdr H)) : Option Nat := readers.head?.map (fun r => r.believed.salt)
 
+/-! ### the map update's signature cache (`ServermapUpdater._got_signature_one_share`)
+
+    if verinfo not in self._valid_versions:
+        rsa.verify_signature(pubkey, signature, prefix)        # BadSignature -> CorruptShareError
+    self._valid_versions.add(verinfo)
+    ... self._servermap.add_new_share(server, shnum, verinfo, timestamp)
+
+One RSA check per version instead of one per share.  `verinfo` contains the complete signed prefix
+(and the offsets), so a cache hit means "this very prefix was verified before".  The cache key is a
+parameter here (`key`): the code uses the whole verinfo; a coarser key (seqnum, root hash, salt) is the
+variant of seed C10-a. -/
+
+/-- what one share contributes to the map update: its signed prefix, the identity of its offsets table, its signature -/
+structure SigIn (H Sig : Type) where
+  pre : Prefix H
+  offs : Nat
+  sig : Sig
+
+/-- `_valid_versions` (as cache keys) and the verinfos entered into the servermap, newest first -/
+structure SigCache (H K : Type) where
+  valid : List K
+  entered : List (Prefix H × Nat)
+
+/-- one share through `_got_signature_one_share` -/
+def gotSignature {H Sig K : Type} [DecidableEq K] (verify : Prefix H → Sig → Bool) (key : Prefix H → Nat → K)
+    (st : SigCache H K) (x : SigIn H Sig) : SigCache H K :=
+  if key x.pre x.offs ∈ st.valid then { st with entered := (x.pre, x.offs) :: st.entered }
+  else if verify x.pre x.sig then { valid := key x.pre x.offs :: st.valid, entered := (x.pre, x.offs) :: st.entered }
+  else st                                                        -- CorruptShareError: the share is marked bad
+
+def mapUpdate {H Sig K : Type} [DecidableEq K] (verify : Prefix H → Sig → Bool) (key : Prefix H → Nat → K)
+    (xs : List (SigIn H Sig)) : SigCache H K := xs.foldl (gotSignature verify key) { valid := [], entered := [] }
+
+/-- the key the code uses: the whole verinfo -/
+def fullKey {H : Type} (p : Prefix H) (o : Nat) : Prefix H × Nat := (p, o)
+
+/-- NOT the code: (seqnum, root hash, salt) only -/
+def coarseKey {H : Type} (p : Prefix H) (_o : Nat) : Nat × H × Nat := (p.seqnum, p.root, p.salt)
+
 /-! ### who can make a version: symbolic terms and adversary knowledge (Dolev–Yao) -/
 
 inductive T
